@@ -612,6 +612,9 @@ fn bits(b: &[bool]) -> String {
 }
 
 pub fn exec(_label: &str, input: &str, out: &mut CaseOut) {
+    if let Some(n) = input.strip_prefix("biggrid ") {
+        return exec_biggrid(n.parse().unwrap_or(1027), out);
+    }
     let mut rd = vx::Rd::new(input);
     let parsed = (|| {
         let mode = rd.tok()?.to_string();
@@ -1208,7 +1211,46 @@ fn rnd_dict(rng: &mut Rng, depth: u32, top: bool) -> Dict {
     d
 }
 
+/// Grids of a thousand rows and more, sizes around powers of two and not divisible by small numbers, the matching rows
+/// at the very beginning, at the very end and nowhere: `filter_all` = the rows for which `Dict::filter` holds, in
+/// order; `filter` = the first of them.  (Oracle only; whatever a grid filter does differently for LARGE grids -
+/// chunks, threads, an index - shows here.)
+fn exec_biggrid(n: usize, out: &mut CaseOut) {
+    out.nontrivial = true;
+    out.stat("biggrid");
+    let rows: Vec<Dict> = (0..n)
+        .map(|i| {
+            let mut d = Dict::new();
+            d.insert("idx".into(), Value::make_int(i as i64));
+            if i % 7 == 3 || i + 3 >= n {
+                d.insert("hot".into(), Value::Marker);
+            }
+            d
+        })
+        .collect();
+    let grid = Grid::make_from_dicts(rows);
+    for text in [format!("idx == {}", n - 1), format!("idx >= {}", n.saturating_sub(3)), "hot".to_string(), "idx == 0".to_string(), "not hot and idx > 5".to_string(), "nope".to_string()] {
+        let filter = match Filter::try_from(text.as_str()) {
+            Ok(f) => f,
+            Err(e) => return out.fail("harness", format!("filter {text}: {e}")),
+        };
+        let want: Vec<usize> = grid.rows.iter().enumerate().filter(|(_, r)| r.filter(&filter)).map(|(i, _)| i).collect();
+        let index_of = |d: &Dict| grid.rows.iter().position(|r| std::ptr::eq(r, d));
+        let all: Vec<Option<usize>> = grid.filter_all(&filter).into_iter().map(|d| index_of(d)).collect();
+        let first = grid.filter(&filter).map(|d| index_of(d));
+        if all != want.iter().map(|i| Some(*i)).collect::<Vec<_>>() {
+            out.fail("grid_all", format!("`{text}` on a grid of {n} rows: filter_all returned {} rows (last {:?}), {} rows match (last {:?})", all.len(), all.last(), want.len(), want.last()));
+        }
+        if first != want.first().map(|i| Some(*i)) {
+            out.fail("grid_first", format!("`{text}` on a grid of {n} rows: filter returned row {first:?}, the first matching row is {:?}", want.first()));
+        }
+    }
+}
+
 pub fn generate(ctx: &mut Ctx) {
+    for n in [1000usize, 1023, 1024, 1025, 1027, 2047, 4099, 10007] {
+        ctx.case("biggrid", &format!("biggrid {n}"));
+    }
     // 1. every single-term filter of the small universe, on every record of it, both ways
     let recs = uni_records();
     for t in uni_terms() {
